@@ -307,7 +307,7 @@ class Verdict:
                 with open(path, "w") as fh:
                     json.dump({"property": self.prop, "stage": label, "behaviour": r["steps"], "table": r["table"],
                                "adapter": r["adapter"], "divergence": d}, fh, indent=1)
-                if len(self.violations) < 20:
+                if len(self.violations) < 5:
                     self.violations.append(("%s: %s query=%s expected=%s actual=%s" % (
                         label, d["kind"], json.dumps(d["query"]), json.dumps(d["expected"])[:300], json.dumps(d["actual"])[:300]), path))
                 break  # one violation per behaviour is enough
